@@ -94,6 +94,7 @@ def _case(draw, tier):
         "neg_pick": draw(st.integers(0, 4)),
         "neg_val": draw(st.integers(0, 9)),
         "custom": custom,
+        "nan_values": draw(st.booleans()),
         "na_token": draw(st.sampled_from(["", "", "", "NaN", "nan", "NA", "N/A", "null", "NULL", "#N/A"])),
     }
 
@@ -155,7 +156,11 @@ def _write(case, header, cols, path, label_override=None):
         arrays = []
         for h in header:
             v = cols[h] if label_override is None or h != label_override[0] else label_override[1]
-            arrays.append(pa.array(v))
+            if case.get("nan_values") and any(x is None for x in v) and all(isinstance(x, float) or x is None for x in v):
+                # a writer that stores a missing float as the value NaN, not as a Parquet null (Arrow C++, Spark, Polars)
+                arrays.append(pa.array(np.array([np.nan if x is None else x for x in v], dtype=float), from_pandas=False))
+            else:
+                arrays.append(pa.array(v))
         pq.write_table(pa.Table.from_arrays(arrays, names=header), path)
     else:
         lines = ["\t".join(header)]
@@ -257,6 +262,28 @@ def check(case):
                 "reserved-columns", "peptide/protein/specid column")
         for o, attr in (("filename", "filename_column"), ("calcmass", "calcmass_column"), ("expmass", "expmass_column"), ("ret_time", "rt_column")):
             require(getattr(p, attr) == names.get(o), "optional-columns", f"{attr}={getattr(p, attr)} expected {names.get(o)}")
+        # a dataset description that names a column the file does not have is rejected at construction, also when the
+        # declared column list itself carries the stale name (a renamed column, another file's header)
+        if p.feature_columns:
+            from mokapot.dataset import OnDiskPsmDataset
+
+            victim = p.feature_columns[case["neg_pick"] % len(p.feature_columns)]
+            ren = lambda c: ("gone_" + c) if c == victim else c  # noqa: E731
+            try:
+                OnDiskPsmDataset(filename=path, columns=[ren(c) for c in p.columns], target_column=p.target_column,
+                                 spectrum_columns=list(p.spectrum_columns), peptide_column=p.peptide_column, protein_column=p.protein_column,
+                                 feature_columns=[ren(c) for c in p.feature_columns], metadata_columns=list(p.metadata_columns),
+                                 metadata_column_types=list(p.metadata_column_types), level_columns=list(p.level_columns),
+                                 filename_column=p.filename_column, scan_column=p.scan_column, specId_column=p.specId_column,
+                                 calcmass_column=p.calcmass_column, expmass_column=p.expmass_column, rt_column=p.rt_column,
+                                 charge_column=p.charge_column, spectra_dataframe=sd.copy())
+            except ValueError:
+                pass
+            except Exception as e:  # noqa: BLE001
+                raise Violation("ill-formed-wrong-error", f"stale column list: raised {type(e).__name__}: {e}") from None
+            else:
+                raise Violation("ill-formed-accepted", f"a dataset description naming the column 'gone_{victim}', which the file does not have, "
+                                                       "was accepted without error")
         # the dataset is usable: all rows readable with the recorded columns
         data = guarded(p.read_data, columns=list(p.feature_columns) + [p.target_column], sig="read_data")
         require(len(data) == n and not data[list(p.feature_columns)].isna().any().any(), "features-with-missing", "a kept feature has missing values")
@@ -274,6 +301,8 @@ def check(case):
         classes.append("row-chunks")
     if any(f["kind"] == "int" and f["name"] in nan_cols for f in case["feats"]):
         classes.append("nan-in-int-column")
+    if nan_cols and case.get("nan_values") and case["fmt"] == "parquet":
+        classes.append("parquet-nan-stored-as-value")
     if nan_cols and case.get("na_token") and case["fmt"] == "tsv":
         classes.append("na-token:" + case["na_token"])
     if case.get("custom") and any(o in names for o in OPTIONAL):
